@@ -590,8 +590,78 @@ impl<E: Elem> World<E> {
         }
     }
 
+    /// map that changes the element type: tracked -> plain (form 4) and plain -> tracked (form 5)
+    fn op_map_mixed(&mut self, cx: &mut Cx, a: [u32; N_ARGS], form: u32) {
+        let Some(i) = pick_len(self.arrs.len(), a[0]) else { return self.noop(cx) };
+        let mut cb = Cb::<E>::new(a[1]);
+        let n = self.arrs[i].len();
+        let li = self.arrs[i].len_idx();
+        if form == 4 {
+            let arr = self.arrs.remove(i);
+            let pre = with_arr!(&arr; x, N => { let _ = N::USIZE; ids_of(x.as_slice(), 941) });
+            let r = with_arr!(arr; x, N => { let _ = N::USIZE; lib(|| Arr::<Plain>::from(x.map(|e: E| {
+                let _g = enter(Ctx::Work);
+                ledger::tick(Seam::Closure);
+                let id = e.observe(910);
+                cb.record(id, 0);
+                // behaviour: drop inside the callback or keep
+                if (cb.beh + cb.calls) % 2 == 0 { drop(e) } else { cb.keep(e) }
+                cb.calls += 1;
+                Plain(id)
+            }))) });
+            cx.cov(&[OpKind::Map as u64, n as u64, 4, r.is_err() as u64, cb.calls as u64 * r.is_err() as u64]);
+            let seen: Vec<u32> = infra(|| cb.args.iter().map(|x| x.0).collect());
+            match r {
+                Ok(out) => {
+                    if cx.checks.c08 && E::HAS_ID {
+                        let got: Vec<u32> = with_arr!(&out; x, N => { let _ = N::USIZE; x.iter().map(|p| p.0).collect() });
+                        if seen != pre || got != pre {
+                            fail("C08-call-order", format!("map to another type: callback saw {seen:?}, result holds {got:?}, expected {pre:?}"));
+                        }
+                    }
+                }
+                Err(p) => {
+                    if cx.checks.c08 && E::HAS_ID && !(seen.len() <= pre.len() && seen[..] == pre[..seen.len()]) {
+                        fail("C08-call-order", format!("map to another type: callback saw {seen:?} before the panic, expected a prefix of {pre:?}"));
+                    }
+                    on_panic(cx, "map (to plain)", p)
+                }
+            }
+        } else {
+            let r = with_len!(li; N => lib(|| {
+                let src = GenericArray::<Plain, N>::generate(|i| Plain(i as u32));
+                Arr::<E>::from(src.map(|p: Plain| {
+                    let _g = enter(Ctx::Work);
+                    ledger::tick(Seam::Closure);
+                    cb.record(PLAIN_TAG | p.0, 0);
+                    cb.calls += 1;
+                    let e = E::make();
+                    cb.out(e)
+                }))
+            }));
+            cx.cov(&[OpKind::Map as u64, n as u64, 5, r.is_err() as u64, cb.calls as u64 * r.is_err() as u64]);
+            let want: Vec<(u32, u32)> = infra(|| (0..n as u32).map(|k| (PLAIN_TAG | k, 0)).collect());
+            match r {
+                Ok(arr) => {
+                    let got = with_arr!(&arr; x, N => { let _ = N::USIZE; ids_of(x.as_slice(), 942) });
+                    self.check_cb_c08(cx, "map (from plain)", &cb, &want, Some(got));
+                    self.put_arr(cx, arr);
+                }
+                Err(p) => {
+                    self.check_cb_c08(cx, "map (from plain)", &cb, &want, None);
+                    on_panic(cx, "map (from plain)", p);
+                }
+            }
+        }
+        let stash = core::mem::take(&mut cb.stash);
+        self.put_loose_all(cx, stash);
+    }
+
     fn op_map(&mut self, cx: &mut Cx, a: [u32; N_ARGS]) {
-        let form = a[2] % 4;
+        let form = a[2] % 6;
+        if form >= 4 {
+            return self.op_map_mixed(cx, a, form);
+        }
         if form == 3 {
             return self.op_bx_map(cx, a);
         }
@@ -713,10 +783,83 @@ impl<E: Elem> World<E> {
         }
     }
 
+    /// zip of a tracked array with an array of plain (no-Drop) elements of another type, on either
+    /// side, in all nine receiver x argument forms
+    fn op_zip_mixed(&mut self, cx: &mut Cx, a: [u32; N_ARGS]) {
+        let form = a[3] % 9;
+        let plain_left = a[4] % 3 == 1;
+        let Some(i) = pick_len(self.arrs.len(), a[0]) else { return self.noop(cx) };
+        let mut xe = self.arrs.remove(i);
+        let n = xe.len();
+        let li = xe.len_idx();
+        let made = with_len!(li; N => lib(|| Arr::<Plain>::from(GenericArray::<Plain, N>::generate(|i| Plain(i as u32)))));
+        let mut xp = match made {
+            Ok(p) => p,
+            Err(p) => {
+                self.put_arr(cx, xe);
+                return on_panic(cx, "generate (plain partner)", p);
+            }
+        };
+        let (lf, rf) = (form / 3, form % 3);
+        let mut cb = Cb::<E>::new(a[2]);
+        let ie = with_arr!(&xe; x, N => { let _ = N::USIZE; ids_of(x.as_slice(), 944) });
+        let want: Vec<(u32, u32)> = infra(|| ie.iter().enumerate().map(|(k, &id)| if plain_left { (PLAIN_TAG | k as u32, id) } else { (id, PLAIN_TAG | k as u32) }).collect());
+        let (ef, pf) = if plain_left { (rf, lf) } else { (lf, rf) };
+        let r = {
+            macro_rules! go {
+                ($l:expr, $r:expr) => {
+                    lib(|| Arr::<E>::from(FunctionalSequence::zip($l, $r, |l, r| zip_cb(&mut cb, l, r))))
+                };
+            }
+            macro_rules! pair {
+                ($e:expr, $p:expr) => {
+                    if plain_left {
+                        with_arr_pair!(($p, $e); l, r, N => { let _ = N::USIZE; go!(l, r) }; _o => unreachable!())
+                    } else {
+                        with_arr_pair!(($e, $p); l, r, N => { let _ = N::USIZE; go!(l, r) }; _o => unreachable!())
+                    }
+                };
+            }
+            match (ef, pf) {
+                (0, 0) => { let (e, p) = (core::mem::replace(&mut xe, Arr::from(GenericArray::<E, generic_array::typenum::U0>::generate(|_| unreachable!()))), core::mem::replace(&mut xp, Arr::from(GenericArray::<Plain, generic_array::typenum::U0>::generate(|_| unreachable!())))); pair!(e, p) }
+                (0, 1) => { let e = core::mem::replace(&mut xe, Arr::from(GenericArray::<E, generic_array::typenum::U0>::generate(|_| unreachable!()))); pair!(e, &xp) }
+                (0, _) => { let e = core::mem::replace(&mut xe, Arr::from(GenericArray::<E, generic_array::typenum::U0>::generate(|_| unreachable!()))); pair!(e, &mut xp) }
+                (1, 0) => { let p = core::mem::replace(&mut xp, Arr::from(GenericArray::<Plain, generic_array::typenum::U0>::generate(|_| unreachable!()))); pair!(&xe, p) }
+                (1, 1) => pair!(&xe, &xp),
+                (1, _) => pair!(&xe, &mut xp),
+                (_, 0) => { let p = core::mem::replace(&mut xp, Arr::from(GenericArray::<Plain, generic_array::typenum::U0>::generate(|_| unreachable!()))); pair!(&mut xe, p) }
+                (_, 1) => pair!(&mut xe, &xp),
+                (_, _) => pair!(&mut xe, &mut xp),
+            }
+        };
+        cx.cov(&[OpKind::Zip as u64, n as u64, form as u64, r.is_err() as u64, cb.calls as u64 * r.is_err() as u64, 1 + plain_left as u64]);
+        cx.probe("zip of a droppable array with a plain array of another type");
+        match r {
+            Ok(arr) => {
+                let got = with_arr!(&arr; x, N => { let _ = N::USIZE; ids_of(x.as_slice(), 946) });
+                self.check_cb_c08(cx, "zip (mixed element types)", &cb, &want, Some(got));
+                self.put_arr(cx, arr);
+            }
+            Err(p) => {
+                self.check_cb_c08(cx, "zip (mixed element types)", &cb, &want, None);
+                on_panic(cx, "zip (mixed element types)", p);
+            }
+        }
+        // the tracked operand survives in the by-reference forms (an owned one was replaced by U0)
+        if ef != 0 {
+            self.put_arr(cx, xe);
+        }
+        let stash = core::mem::take(&mut cb.stash);
+        self.put_loose_all(cx, stash);
+    }
+
     fn op_zip(&mut self, cx: &mut Cx, a: [u32; N_ARGS]) {
         let form = a[3] % 10;
         if form == 9 {
             return self.op_bx_zip(cx, a);
+        }
+        if a[4] % 3 != 0 {
+            return self.op_zip_mixed(cx, a);
         }
         let Some((mut xa, mut xb)) = self.take_pair(cx, a[0], a[1]) else { return self.noop(cx) };
         let n = xa.len();
